@@ -9,6 +9,7 @@ pub mod c10;
 pub mod c11;
 pub mod c15;
 pub mod c16;
+pub mod progs;
 
 pub fn c04_op_programs() -> Vec<String> {
     c04::op_programs()
@@ -16,6 +17,9 @@ pub fn c04_op_programs() -> Vec<String> {
 
 pub fn run(id: &str, tier: Tier, seed: u64) -> i32 {
     match id {
+        "C01" => progs::run(&Ctx::new(id, tier, seed, 60.0, 720.0), progs::Kind::C01),
+        "C02" => progs::run(&Ctx::new(id, tier, seed, 60.0, 720.0), progs::Kind::C02),
+        "C14" => progs::run(&Ctx::new(id, tier, seed, 60.0, 720.0), progs::Kind::C14),
         "C03" => c03::run(&Ctx::new(id, tier, seed, 40.0, 360.0)),
         "C04" => c04::run(&Ctx::new(id, tier, seed, 60.0, 900.0)),
         "C06" => c06::run(&Ctx::new(id, tier, seed, 45.0, 480.0)),
@@ -31,8 +35,25 @@ pub fn run(id: &str, tier: Tier, seed: u64) -> i32 {
 }
 
 pub fn replay(id: &str, path: &str) -> i32 {
-    eprintln!("replay for {id} not implemented yet ({path})");
-    2
+    match id {
+        "C01" => progs::replay(progs::Kind::C01, path),
+        "C02" => progs::replay(progs::Kind::C02, path),
+        "C14" => progs::replay(progs::Kind::C14, path),
+        _ => {
+            // generic replay: the replay file holds the complete failing input; show it
+            match std::fs::read_to_string(path) {
+                Ok(t) => {
+                    println!("{t}");
+                    println!("note: {id} has no dedicated re-execution; the record above is the complete failing input");
+                    2
+                }
+                Err(e) => {
+                    eprintln!("cannot read {path}: {e}");
+                    2
+                }
+            }
+        }
+    }
 }
 
 pub fn worker_main(args: &[String]) -> i32 {
